@@ -292,4 +292,155 @@ theorem c07_assert_not_output_regex : Correct "assert_not_output_regex" cond_ass
   refine correct_of _ _ _ rfl fun c _ => ?_
   exact evalOutcome_pos c _ _ (eval_output_regex c).2
 
+/-! ## The property, over the whole generated table -/
+
+/-- The assertions whose conditions are proved correct (all of the property's list except
+    assert_type / assert_not_type, which go through pedal's type system and are only sampled). -/
+def provedNames : List String :=
+  ["assert_less", "assert_less_equal", "assert_greater", "assert_greater_equal", "assert_in", "assert_not_in", "assert_contains_subset", "assert_not_contains_subset", "assert_is", "assert_is_not", "assert_is_none", "assert_is_not_none", "assert_true", "assert_false", "assert_length_equal", "assert_length_not_equal", "assert_length_less", "assert_length_less_equal", "assert_length_greater", "assert_length_greater_equal", "assert_is_instance", "assert_not_is_instance", "assert_equal", "assert_not_equal", "assert_almost_equal", "assert_not_almost_equal", "assert_regex", "assert_not_regex", "assert_output", "assert_prints", "assert_not_output", "assert_output_contains", "assert_not_output_contains", "assert_output_regex", "assert_not_output_regex"]
+
+/-- the condition the driver (and the correspondence) evaluates for `name` -/
+def condOf (name : String) : Option CondExpr := (table.find? (·.1 == name)).map (·.2)
+
+/-- Every proved name is in the generated table, with a condition that is `Correct`. -/
+theorem c07_table_correct : ∀ name ∈ provedNames, ∃ cond, condOf name = some cond ∧ Correct name cond := by
+  intro name h
+  simp only [provedNames, List.mem_cons, List.mem_nil_iff, or_false] at h
+  rcases h with rfl | rfl | rfl | rfl | rfl | rfl | rfl | rfl | rfl | rfl | rfl | rfl | rfl | rfl | rfl | rfl | rfl | rfl | rfl | rfl | rfl | rfl | rfl | rfl | rfl | rfl | rfl | rfl | rfl | rfl | rfl | rfl | rfl | rfl | rfl
+  · exact ⟨cond_assert_less, rfl, c07_assert_less⟩
+  · exact ⟨cond_assert_less_equal, rfl, c07_assert_less_equal⟩
+  · exact ⟨cond_assert_greater, rfl, c07_assert_greater⟩
+  · exact ⟨cond_assert_greater_equal, rfl, c07_assert_greater_equal⟩
+  · exact ⟨cond_assert_in, rfl, c07_assert_in⟩
+  · exact ⟨cond_assert_not_in, rfl, c07_assert_not_in⟩
+  · exact ⟨cond_assert_contains_subset, rfl, c07_assert_contains_subset⟩
+  · exact ⟨cond_assert_not_contains_subset, rfl, c07_assert_not_contains_subset⟩
+  · exact ⟨cond_assert_is, rfl, c07_assert_is⟩
+  · exact ⟨cond_assert_is_not, rfl, c07_assert_is_not⟩
+  · exact ⟨cond_assert_is_none, rfl, c07_assert_is_none⟩
+  · exact ⟨cond_assert_is_not_none, rfl, c07_assert_is_not_none⟩
+  · exact ⟨cond_assert_true, rfl, c07_assert_true⟩
+  · exact ⟨cond_assert_false, rfl, c07_assert_false⟩
+  · exact ⟨cond_assert_length_equal, rfl, c07_assert_length_equal⟩
+  · exact ⟨cond_assert_length_not_equal, rfl, c07_assert_length_not_equal⟩
+  · exact ⟨cond_assert_length_less, rfl, c07_assert_length_less⟩
+  · exact ⟨cond_assert_length_less_equal, rfl, c07_assert_length_less_equal⟩
+  · exact ⟨cond_assert_length_greater, rfl, c07_assert_length_greater⟩
+  · exact ⟨cond_assert_length_greater_equal, rfl, c07_assert_length_greater_equal⟩
+  · exact ⟨cond_assert_is_instance, rfl, c07_assert_is_instance⟩
+  · exact ⟨cond_assert_not_is_instance, rfl, c07_assert_not_is_instance⟩
+  · exact ⟨cond_assert_equal, rfl, c07_assert_equal⟩
+  · exact ⟨cond_assert_not_equal, rfl, c07_assert_not_equal⟩
+  · exact ⟨cond_assert_almost_equal, rfl, c07_assert_almost_equal⟩
+  · exact ⟨cond_assert_not_almost_equal, rfl, c07_assert_not_almost_equal⟩
+  · exact ⟨cond_assert_regex, rfl, c07_assert_regex⟩
+  · exact ⟨cond_assert_not_regex, rfl, c07_assert_not_regex⟩
+  · exact ⟨cond_assert_output, rfl, c07_assert_output⟩
+  · exact ⟨cond_assert_prints, rfl, c07_assert_prints⟩
+  · exact ⟨cond_assert_not_output, rfl, c07_assert_not_output⟩
+  · exact ⟨cond_assert_output_contains, rfl, c07_assert_output_contains⟩
+  · exact ⟨cond_assert_not_output_contains, rfl, c07_assert_not_output_contains⟩
+  · exact ⟨cond_assert_output_regex, rfl, c07_assert_output_regex⟩
+  · exact ⟨cond_assert_not_output_regex, rfl, c07_assert_not_output_regex⟩
+
+/-- **Silent iff the relation holds.**  For every proved assertion, all operands, raw or proxied:
+    the assertion is silent exactly when no operand is an error and the asserted Python relation
+    evaluates to True; it produces failing feedback exactly when an operand is an error, the relation
+    is False, or the relation cannot be evaluated. -/
+theorem c07_silent_iff_holds (name : String) (h : name ∈ provedNames) :
+    ∃ cond rel, condOf name = some cond ∧ relOf name = some rel ∧ ∀ c : Ctx,
+      (outcome wrapperGuard cond c = .silent ↔ (anyErr c = false ∧ rel c = .ok true)) ∧
+      (outcome wrapperGuard cond c = .fires ↔
+        (anyErr c = true ∨ rel c = .ok false ∨ rel c = .error .raised)) := by
+  obtain ⟨cond, hcond, rel, hrel, hc⟩ := c07_table_correct name h
+  refine ⟨cond, rel, hcond, hrel, fun c => ?_⟩
+  rw [hc c, specOutcome]
+  cases he : anyErr c
+  · cases hr : rel c with
+    | error e => cases e <;> simp [relOutcome]
+    | ok b => cases b <;> simp [relOutcome]
+  · simp
+
+/-- **Error operands.**  Whatever the condition (even one the translator does not understand): an
+    operand that is an error makes the assertion fail. -/
+theorem c07_error_operand_fails (cond : CondExpr) (c : Ctx) (h : anyErr c = true) :
+    outcome wrapperGuard cond c = .fires := by
+  rw [outcome_guard, h]; rfl
+
+/-- Strip the proxies from both operands. -/
+def Ctx.unwrapAll (c : Ctx) : Ctx := { c with left := c.left.unwrapped, right := c.right.unwrapped }
+
+theorem rel_unwrapAll (name : String) (rel : Ctx → Res Bool) (h : relOf name = some rel) (c : Ctx) :
+    rel c.unwrapAll = rel c := by
+  unfold relOf at h
+  split at h <;> first
+    | (cases h; rfl)
+    | (cases h)
+
+/-- **Plain value or proxied result.**  For every proved assertion the outcome is the same whether
+    an operand is passed raw or wrapped in a `SandboxResult` proxy (any of the four combinations). -/
+theorem c07_wrapping_invariant (name : String) (h : name ∈ provedNames) :
+    ∃ cond, condOf name = some cond ∧ ∀ c : Ctx,
+      outcome wrapperGuard cond c = outcome wrapperGuard cond c.unwrapAll := by
+  obtain ⟨cond, hcond, rel, hrel, hc⟩ := c07_table_correct name h
+  refine ⟨cond, hcond, fun c => ?_⟩
+  rw [hc c, hc c.unwrapAll, rel_unwrapAll name rel hrel c]
+  rfl
+
+/-- **An assertion and its negated counterpart** never both pass and never both fail on operands
+    for which the relation can be evaluated (and neither is an error). -/
+theorem negation_exclusive_of (a a' : String) (ca ca' : CondExpr) (rel : Ctx → Res Bool)
+    (ha : relOf a = some rel) (ha' : relOf a' = some fun c => notR (rel c))
+    (hc : Correct a ca) (hc' : Correct a' ca') (c : Ctx) (hne : anyErr c = false) (b : Bool)
+    (hev : rel c = .ok b) :
+    (outcome wrapperGuard ca c = .silent ∧ outcome wrapperGuard ca' c = .fires) ∨
+    (outcome wrapperGuard ca c = .fires ∧ outcome wrapperGuard ca' c = .silent) := by
+  obtain ⟨r1, h1, e1⟩ := hc
+  obtain ⟨r2, h2, e2⟩ := hc'
+  rw [ha] at h1; cases h1
+  rw [ha'] at h2; cases h2
+  rw [e1 c, e2 c]
+  simp only [specOutcome, hne, hev]
+  cases b <;> simp [relOutcome, notR, Except.map]
+
+def negationPairs : List (String × String) :=
+  [("assert_equal", "assert_not_equal"), ("assert_almost_equal", "assert_not_almost_equal"), ("assert_in", "assert_not_in"), ("assert_contains_subset", "assert_not_contains_subset"), ("assert_is", "assert_is_not"), ("assert_is_none", "assert_is_not_none"), ("assert_true", "assert_false"), ("assert_length_equal", "assert_length_not_equal"), ("assert_is_instance", "assert_not_is_instance"), ("assert_regex", "assert_not_regex"), ("assert_output", "assert_not_output"), ("assert_prints", "assert_not_output"), ("assert_output_contains", "assert_not_output_contains"), ("assert_output_regex", "assert_not_output_regex")]
+
+theorem c07_negation_exclusive : ∀ p ∈ negationPairs, ∃ ca ca' rel,
+    condOf p.1 = some ca ∧ condOf p.2 = some ca' ∧ relOf p.1 = some rel ∧
+    ∀ (c : Ctx) (b : Bool), anyErr c = false → rel c = .ok b →
+      (outcome wrapperGuard ca c = .silent ∧ outcome wrapperGuard ca' c = .fires) ∨
+      (outcome wrapperGuard ca c = .fires ∧ outcome wrapperGuard ca' c = .silent) := by
+  intro p h
+  simp only [negationPairs, List.mem_cons, List.mem_nil_iff, or_false] at h
+  rcases h with rfl | rfl | rfl | rfl | rfl | rfl | rfl | rfl | rfl | rfl | rfl | rfl | rfl | rfl
+  · exact ⟨cond_assert_equal, cond_assert_not_equal, _, rfl, rfl, rfl, fun c b hne hev =>
+      negation_exclusive_of _ _ _ _ _ rfl rfl c07_assert_equal c07_assert_not_equal c hne b hev⟩
+  · exact ⟨cond_assert_almost_equal, cond_assert_not_almost_equal, _, rfl, rfl, rfl, fun c b hne hev =>
+      negation_exclusive_of _ _ _ _ _ rfl rfl c07_assert_almost_equal c07_assert_not_almost_equal c hne b hev⟩
+  · exact ⟨cond_assert_in, cond_assert_not_in, _, rfl, rfl, rfl, fun c b hne hev =>
+      negation_exclusive_of _ _ _ _ _ rfl rfl c07_assert_in c07_assert_not_in c hne b hev⟩
+  · exact ⟨cond_assert_contains_subset, cond_assert_not_contains_subset, _, rfl, rfl, rfl, fun c b hne hev =>
+      negation_exclusive_of _ _ _ _ _ rfl rfl c07_assert_contains_subset c07_assert_not_contains_subset c hne b hev⟩
+  · exact ⟨cond_assert_is, cond_assert_is_not, _, rfl, rfl, rfl, fun c b hne hev =>
+      negation_exclusive_of _ _ _ _ _ rfl rfl c07_assert_is c07_assert_is_not c hne b hev⟩
+  · exact ⟨cond_assert_is_none, cond_assert_is_not_none, _, rfl, rfl, rfl, fun c b hne hev =>
+      negation_exclusive_of _ _ _ _ _ rfl rfl c07_assert_is_none c07_assert_is_not_none c hne b hev⟩
+  · exact ⟨cond_assert_true, cond_assert_false, _, rfl, rfl, rfl, fun c b hne hev =>
+      negation_exclusive_of _ _ _ _ _ rfl rfl c07_assert_true c07_assert_false c hne b hev⟩
+  · exact ⟨cond_assert_length_equal, cond_assert_length_not_equal, _, rfl, rfl, rfl, fun c b hne hev =>
+      negation_exclusive_of _ _ _ _ _ rfl rfl c07_assert_length_equal c07_assert_length_not_equal c hne b hev⟩
+  · exact ⟨cond_assert_is_instance, cond_assert_not_is_instance, _, rfl, rfl, rfl, fun c b hne hev =>
+      negation_exclusive_of _ _ _ _ _ rfl rfl c07_assert_is_instance c07_assert_not_is_instance c hne b hev⟩
+  · exact ⟨cond_assert_regex, cond_assert_not_regex, _, rfl, rfl, rfl, fun c b hne hev =>
+      negation_exclusive_of _ _ _ _ _ rfl rfl c07_assert_regex c07_assert_not_regex c hne b hev⟩
+  · exact ⟨cond_assert_output, cond_assert_not_output, _, rfl, rfl, rfl, fun c b hne hev =>
+      negation_exclusive_of _ _ _ _ _ rfl rfl c07_assert_output c07_assert_not_output c hne b hev⟩
+  · exact ⟨cond_assert_prints, cond_assert_not_output, _, rfl, rfl, rfl, fun c b hne hev =>
+      negation_exclusive_of _ _ _ _ _ rfl rfl c07_assert_prints c07_assert_not_output c hne b hev⟩
+  · exact ⟨cond_assert_output_contains, cond_assert_not_output_contains, _, rfl, rfl, rfl, fun c b hne hev =>
+      negation_exclusive_of _ _ _ _ _ rfl rfl c07_assert_output_contains c07_assert_not_output_contains c hne b hev⟩
+  · exact ⟨cond_assert_output_regex, cond_assert_not_output_regex, _, rfl, rfl, rfl, fun c b hne hev =>
+      negation_exclusive_of _ _ _ _ _ rfl rfl c07_assert_output_regex c07_assert_not_output_regex c hne b hev⟩
+
 end Pedal.Assertions
